@@ -113,6 +113,13 @@ func c04WalkD(in *LNode, out *JNode, fl Flags, inZone bool, zd int, path []strin
 		return
 	case LabSecret, LabDontCare, LabFieldRef:
 		if in.Kind != JObj && in.Kind != JArr {
+			// a sensitive number / boolean is a zone position only when its flag is on: without --redactNumbers
+			// (--redactBooleans) it is emitted as it is, the number with its exact literal text
+			if in.Lab.K == LabSecret && ((in.Kind == JNum && !fl.N) || (in.Kind == JBool && !fl.B)) {
+				if p, d := keepEqual(in, out, path); d != "" {
+					*diffs = append(*diffs, c04Diff{p, d, "in-zone-literal-without-its-flag"})
+				}
+			}
 			return
 		}
 	}
